@@ -54,6 +54,8 @@ def _c17_case(c):
         return {**extra, "op": p[0], "pred": "" if pred == "-" else pred, "max_retry": int(mr), "min": int(mn), "max": int(mx), "tbl": _c17_ints(tbl), "dflt": int(dflt),
                 "cancel": cancel, "deadline": deadline, "body": kind, "manifest": man, "unknown_len": unknown, "method": method, "pre_auth": preauth,
                 "data": "" if data == "-" else data, "big_len": 0, "script": behs}
+    if p[0] == "I":
+        return {"op": "I", "input": unhex(p[1])}
     if p[0] == "D":
         _, pred, mr, mn, mx, tbl, dflt, att, out = p
         return {"op": "D", "which": "P", "pred": "" if pred == "-" else pred, "max_retry": int(mr), "min": int(mn), "max": int(mx), "tbl": _c17_ints(tbl),
